@@ -48,6 +48,10 @@ def shards(tier):
     per = 25 if tier == 'quick' else 8
     for i in range(0, len(fs), per):
         out.append({'kind': 'dt', 'formulas': [F.to_json(f) for f in fs[i:i + per]]})
+    deep = [f for f in F.deep_formulas(BF_U, ('since', 'until', 'unless')) if refsem.horizon(f) <= 9]
+    deep = deep[::3] if tier == 'quick' else deep
+    for i in range(0, len(deep), 3):
+        out.append({'kind': 'dt', 'deep': True, 'formulas': [F.to_json(f) for f in deep[i:i + 3]]})
     fd = formula_set(tier, dense=True)
     per = 12 if tier == 'quick' else 4
     for i in range(0, len(fd), per):
@@ -68,6 +72,9 @@ def run_dt(shard, tier, res, mod):
         n1, ext = (4, 2) if len(vs) == 1 else (3, 2)
         if not quick:
             n1, ext = (5, 2) if len(vs) == 1 else (3, 3)
+        if shard.get('deep'):
+            values = F.V2
+            n1, ext = ((8, 3) if quick else (10, 3)) if len(vs) == 1 else ((4, 2) if quick else (5, 2))
         cache = {}
 
         def val(tr):
